@@ -83,6 +83,7 @@ LeafSorts(t) ==
       [] t.op = "function" -> {t.ty.a[j] : j \in 1..Len(t.ty.a)} \cup subs
       [] t.op \in {"forall", "exists"} -> {t.bv[j].ty : j \in 1..Len(t.bv)} \cup subs
       [] t.op \in ConstOps -> {TyF(t)}
+      [] t.op = "array_value" -> {TyF(t)} \cup subs          \* the literal's array sort: its index sort occurs nowhere else
       [] OTHER -> subs
 SortsOf(t) == UNION {SortClosure(ty) : ty \in LeafSorts(t)}
 CustomSortsOf(t) == {ty \in SortsOf(t) : ty.k = "Sort"}
